@@ -8,6 +8,7 @@ CONSTANTS
   Filts = {FALSE, TRUE}
   Meds = {FALSE}
   AllowClear = TRUE
+  DeltaOpts = {TRUE}
   AsCoded = FALSE
   Withhold = FALSE
 VIEW View
